@@ -94,7 +94,13 @@ func verifC03_ResponseAdaptorCoding() {
 	req, _ := httpprot.NewRequest(&http.Request{Method: "GET", Header: http.Header{}})
 	ctx.SetRequest(context.DefaultNamespace, req)
 	resp, _ := httpprot.NewResponse(nil)
-	resp.SetPayload([]byte("xy"))
+	if verifBool("resp.stream") {
+		// a streamed backend response (Proxy in stream mode)
+		resp.SetPayload(&vPass{r: strings.NewReader("xy")})
+		verifCover("streamed-response")
+	} else {
+		resp.SetPayload([]byte("xy"))
+	}
 	for _, l := range before {
 		resp.HTTPHeader().Add("Content-Encoding", l)
 	}
